@@ -85,7 +85,12 @@ class SessionWrapper:
     @revision_id.setter
     @needs_revision_table
     def revision_id(self, revision_id: str):
-        self.session.execute(
+        result = self.session.execute(
             text(f"UPDATE revision SET revision_id = :revision_id"),
             {"revision_id": revision_id},
         )
+        if result.rowcount == 0:
+            self.session.execute(
+                text("INSERT INTO revision (revision_id) VALUES (:revision_id)"),
+                {"revision_id": revision_id},
+            )
